@@ -255,6 +255,15 @@ example : kindSafe exact4Std (.bin .div (.int 1) (.int 2) : Expr String) = false
 example : kindSafe exact4Std (.dec 1 1 : Expr String) = false := by decide
 example : exact4Std 375 3 = true ∧ exact4Std 1 1 = false ∧ exact4Std 314159 5 = false := by decide
 
+/-- `max(X, 0.5, Y[t-1])` (three arguments, read as a fold of the binary call) is kind-safe and means the same in the toy
+    interpretation: 4.0 from X = 4.0, Y[t-1] = 1.0. -/
+example : kindSafe exact4Std (Expr.fnMany .max (.var "X" 0) (.dec 5 1) [.var "Y" (-1)]) = true := by decide
+example : (denF toyT (fun (r : Nat) off => if r = 3 then 4000 else 1000)
+      ((Expr.fnMany .max (.var "X" 0) (.dec 5 1) [.var "Y" (-1)]).map (fun x => if x = "X" then 3 else 1))).map
+    (fun v => v.to8 toyT) = some 4000 ∧
+    (denP toy8 (fun x off => if x = "X" then 4000 else 1000)
+      (Expr.fnMany .max (.var "X" 0) (.dec 5 1) [.var "Y" (-1)])).toF toy8 = 4000 := by decide
+
 /-! ## One whole evaluation pass -/
 
 /-- **A whole `evaluate` pass agrees.**  For a numbered program whose equations are kind-safe and whose references
